@@ -99,6 +99,7 @@ class Sim:
         self.loop_errors = []
         self.drop_next = None
         self.hold = set()       # nodes whose outgoing datagrams are silently lost
+        self.spoof = {}         # passage id -> source address an injected datagram claims
         self.transports = []    # every fake outside transport ever opened by an exit socket
         self.nonces = {}        # (key id, direction) -> {explicit nonce: ciphertext}
         self.nonce_reuse = []
@@ -109,7 +110,7 @@ class Sim:
         _random.seed(rng.getrandbits(64))
 
     # -- construction -----------------------------------------------------------------------------------------
-    def add_node(self, flags=None):
+    def add_node(self, flags=None, tunnel_ep=False):
         from ipv8.messaging.anonymization.community import TunnelCommunity, TunnelSettings
         from ipv8.messaging.anonymization.hidden_services import HiddenTunnelCommunity, HiddenTunnelSettings
         from ipv8.messaging.anonymization.tunnel import PEER_FLAG_RELAY, PEER_FLAG_SPEED_TEST
@@ -120,7 +121,28 @@ class Sim:
         s.max_circuits = 0
         s.remove_tunnel_delay = self.delay
         s.peer_flags = set(flags) if flags is not None else {PEER_FLAG_RELAY, PEER_FLAG_SPEED_TEST}
-        n = MockIPv8("curve25519", HiddenTunnelCommunity if self.hidden else TunnelCommunity, settings=s)
+        if tunnel_ep:
+            # the node's endpoint is a TunnelEndpoint wrapped around the mock endpoint (what IPv8 configures for anonymization)
+            from ipv8.messaging.anonymization.endpoint import TunnelEndpoint
+            from ipv8.test.mocking import ipv8 as mipv8
+            mep = self.mep
+
+            class HTunnelEndpoint(TunnelEndpoint):
+                def __init__(self):
+                    super().__init__(mep.AutoMockEndpoint())
+                wan_address = property(lambda self: self.endpoint.wan_address)
+                lan_address = property(lambda self: self.endpoint.lan_address)
+
+                def open(self):
+                    return self.endpoint.open()
+            orig_factory = mipv8.AutoMockEndpoint
+            mipv8.AutoMockEndpoint = HTunnelEndpoint
+            try:
+                n = MockIPv8("curve25519", TunnelCommunity, settings=s)
+            finally:
+                mipv8.AutoMockEndpoint = orig_factory
+        else:
+            n = MockIPv8("curve25519", HiddenTunnelCommunity if self.hidden else TunnelCommunity, settings=s)
         if self.hidden:
             n.overlay.ipv8 = n
             n.overlay.crypto_endpoint.setup_tunnels(n.overlay, s)
@@ -137,7 +159,7 @@ class Sim:
         return idx
 
     def _hook(self, idx, n):
-        ep = n.endpoint
+        ep = getattr(n.endpoint, "endpoint", n.endpoint)      # the socket-level endpoint (inside a TunnelEndpoint)
         ov = n.overlay
         ce = ov.crypto_endpoint
 
@@ -213,15 +235,20 @@ class Sim:
             return
         prev, self.cur = self.cur, pid
         try:
-            ep.notify_listeners((self.nodes[src].endpoint.wan_address if src < len(self.nodes) else addr, pkt))
+            from ipv8.messaging.interfaces.udp.endpoint import UDPv4Address
+            source = UDPv4Address(*self.spoof[pid]) if pid in self.spoof else \
+                (self.nodes[src].endpoint.wan_address if src < len(self.nodes) else addr)
+            ep.notify_listeners((source, pkt))
         except Exception as e:  # escaped the receive path: the cell is dropped (C03 is about the escape itself)
             self.passages[pid].raised.append(type(e).__name__)
         finally:
             self.cur = prev
 
-    def inject(self, dst_idx, src_idx, pkt):
+    def inject(self, dst_idx, src_idx, pkt, src_addr=None):
         p = Passage(len(self.passages), "inject", dst_idx, dst_idx, None, None, pkt, None)
         self.passages.append(p)
+        if src_addr is not None:
+            self.spoof[p.pid] = tuple(src_addr)
         self.queue.append((p.pid, src_idx, tuple(self.nodes[dst_idx].endpoint.wan_address), pkt))
         asyncio.get_running_loop().call_soon(self._pump_one)
         return p
@@ -751,27 +778,23 @@ async def nested_round(ctx: Ctx, rng, ck: Checker, sim: Sim, kind: str, xs, recv
                       "first_hop": list(hop), "packet": packet.hex()}
             first = len(sim.passages)
             sim.op_first_pid = first
-            n_raw = len(sim.raw_log)
+            n_raw, n_op = len(sim.raw_log), len(sim.opfc_log)
             xs.tunnel_data(src, packet)
             await sim.settle()
             ck.check_passages(first, f"nested {mname} from {sname}", replay)
             raws = sim.raw_log[n_raw:]
-            # the code's rule (and the model's): accepted only from the first hop's full address
-            target = sim.nodes[recv_node].overlay.circuits.get(icid)
-            legit = secret is not None and target is not None and tuple(src) == tuple(target.hop.address)
-            if raws and not legit:
-                ctx.oracle_fail("on_data:foreign-origin-accepted", f"{tag}: a DATA message nested in a returned tunnel packet, delivered by "
+            # a DATA message nested in a returned tunnel-community packet is never circuit data (its "delivering peer" would be
+            # the sender-chosen origin); other nested cell messages are re-dispatched but must not produce circuit data either
+            if raws:
+                ctx.oracle_fail("on_data:foreign-origin-accepted", f"{tag}: a {mname} message nested in a returned tunnel packet, delivered by "
                                 f"{src} ({sname}; first hop is {hop}), was handed to on_raw_data as data of circuit {raws[0][1]} from {raws[0][2]}", replay)
             ctx.count(f"nested:{sname}:{mname}:{'raw' if raws else 'none'}")
-            if ck.drv is not None and secret is not None and target is not None:
-                sip = struct.unpack("!I", bytes(int(x) for x in src[0].split(".")))[0]
-                th = tuple(target.hop.address)
-                thip = struct.unpack("!I", bytes(int(x) for x in th[0].split(".")))[0]
-                m = ck.ask(f"sink2 {CT[target.ctype]} {sip} {src[1]} {thip} {th[1]} {pfx.hex()} "
-                           f"{int(isinstance(ov.endpoint, TunnelEndpoint))} 1 {secret.hex() or '-'}")
-                seen = "raw" if raws else "dropped"
+            if ck.drv is not None:
+                m = ck.ask(f"sink {CT[recv_circ.ctype]} {pfx.hex()} {int(isinstance(ov.endpoint, TunnelEndpoint))} 1 {packet.hex()}")
+                reinj = [o for o in sim.opfc_log[n_op:] if o[0] == recv_node and o[3] == packet]
+                seen = "raw" if raws else "ownPacket" if reinj else "dropped"
                 if m != seen:
-                    ctx.disagree(f"{tag}: nested DATA from {sname}: model sink {m} != implementation {seen}", {**replay, "model": m, "impl": seen})
+                    ctx.disagree(f"{tag}: nested {mname} from {sname}: model sink {m} != implementation {seen}", {**replay, "model": m, "impl": seen})
             ctx.case(("nested", kind, sname, mname), True)
 
 
@@ -1071,6 +1094,7 @@ async def run_plain(ctx: Ctx, rng, hops: int, use_model: bool, seed_tag: str, al
         await tamper_shapes(ctx, rng, ck, sim, plain_senders(sim, circuits[0], paths[0]), hops, open_policy, "plain")
         # ---- injected cells -----------------------------------------------------------------------------------
         await inject_round(ctx, rng, ck, sim, circuits, paths, hops)
+        await other_address_round(ctx, rng, ck, sim, circuits[0], paths[0])
         ck.compare_tables("at the end")
         for e in sim.loop_errors:
             ctx.count(f"loop_error:{e}")
@@ -1285,6 +1309,49 @@ async def v6_return_round(ctx, rng, ck: Checker, sim: Sim, c, path):
                             f"{[(r[0], r[1], r[2], len(r[3])) for r in raws]}, expected {[(w[0], w[1], w[2]) for w in want]}", replay)
         ctx.count(f"v6_return:{'mapped' if mapped else 'native'}:{'raw' if raws else 'none'}")
         ctx.case(("v6-return", mapped), True)
+
+
+async def other_address_round(ctx, rng, ck: Checker, sim: Sim, c, path):
+    """`on_data` takes a DATA message for data of an own circuit only from the first hop's FULL (ip, port) address: the very
+    cell the first hop just delivered, arriving again from the first hop's IP with another port or from an unrelated
+    address, decrypts (same keys) but must not reach on_raw_data.  (A re-sent genuine cell is used only because nobody else
+    can produce a cell that decrypts; from the first hop's own address it would be an ordinary replay, outside C04.)"""
+    tag = ck.tag
+    exit_node, exit_cid = path[-1]
+    xs = sim.nodes[exit_node].overlay.exit_sockets.get(exit_cid)
+    payload = rand_payload(rng, 40)
+    first = len(sim.passages)
+    sim.op_first_pid = first
+    xs.tunnel_data(("9.9.9.9", 999), payload)
+    await sim.settle()
+    bwd = sim.passages[first]
+    if ck.drv is not None:
+        ck.check_passages(first, "capture", {"scenario": tag, "op": "capture"})
+    if not bwd.wires:
+        return
+    src_n, dst_n, cid, pt, re, body = bwd.wires[-1]
+    hop = tuple(c.hop.address)
+    prefix = sim.nodes[0].overlay.get_prefix()
+    pkt = prefix + b"\x00" + struct.pack("!I??", cid, False, False) + body
+    ip2n = lambda a: struct.unpack("!I", bytes(int(x) for x in a.split(".")))[0]  # noqa: E731
+    for sname, src in (("hop-ip-other-port", (hop[0], (hop[1] + 1 + rng.randrange(1000)) % 65536 or 1)),
+                       ("unrelated", ("9.8.7.6", 1 + rng.randrange(60000)))):
+        replay = {"scenario": tag, "op": "inject", "kind": f"genuine-cell-from-{sname}", "src": list(src), "first_hop": list(hop),
+                  "datagram": pkt.hex()}
+        n_raw, n_exit = len(sim.raw_log), len(sim.exit_log)
+        sim.inject(0, src_n, pkt, src_addr=src)
+        await sim.settle()
+        raws = sim.raw_log[n_raw:]
+        if raws or sim.exit_log[n_exit:]:
+            ctx.oracle_fail("on_data:foreign-origin-accepted", f"{tag}: circuit data arriving from {src} ({sname}; the first hop is {hop}) was "
+                            "handed to on_raw_data", replay)
+        ctx.count(f"other_address:{sname}:{'raw' if raws else 'none'}")
+        if ck.drv is not None:
+            m = ck.ask(f"sink2 {CT[c.ctype]} {ip2n(src[0])} {src[1]} {ip2n(hop[0])} {hop[1]} {prefix.hex()} 0 1 {payload.hex()}")
+            seen = "raw" if raws else "dropped"
+            if m != seen:
+                ctx.disagree(f"{tag}: genuine cell from {sname}: model sink {m} != implementation {seen}", {**replay, "model": m, "impl": seen})
+        ctx.case(("other-address", sname), True)
 
 
 async def inject_round(ctx, rng, ck: Checker, sim: Sim, circuits, paths, hops, senders=None, kindtag="plain"):
@@ -1824,6 +1891,97 @@ async def run_teardown(ctx: Ctx, rng, hops: int, use_model: bool, seed_tag: str)
 
 
 # ------------------------------------------------------------------------------------------------------------------
+async def run_tunnel_endpoint(ctx: Ctx, rng, hops: int, use_model: bool, seed_tag: str):
+    """The originator's endpoint is a TunnelEndpoint on which, besides the tunnel community, an ANONYMIZED overlay and a
+    plain overlay are loaded.  IPv8-shaped datagrams returned through the exit of a plain circuit (prefix of the anonymized
+    overlay / of the plain overlay / of nobody) must reach exactly the anonymized overlay they are addressed to: its
+    on_packet gets the bytes once, with the outside origin as source; the plain overlay gets nothing out of the tunnel."""
+    from ipv8.community import Community, CommunitySettings
+    from ipv8.messaging.anonymization.tunnel import PEER_FLAG_EXIT_BT, PEER_FLAG_EXIT_IPV8, PEER_FLAG_RELAY, PEER_FLAG_SPEED_TEST
+    sim = Sim(rng, hidden=False, open_policy=True)
+    tag = f"tunnel-endpoint/{hops}hop/{seed_tag}"
+    ck = Checker(ctx, sim, use_model, tag)
+    extra = []
+    try:
+        sim.add_node(tunnel_ep=True)
+        for _ in range(hops):
+            sim.add_node()
+        sim.nodes[hops].overlay.settings.peer_flags = {PEER_FLAG_RELAY, PEER_FLAG_SPEED_TEST, PEER_FLAG_EXIT_BT, PEER_FLAG_EXIT_IPV8}
+        n0 = sim.nodes[0]
+        got = []
+
+        def load(cid_byte, anonymize):
+            class Extra(Community):
+                community_id = bytes([cid_byte]) * 20
+            st = CommunitySettings(my_peer=n0.my_peer, endpoint=n0.endpoint, network=n0.network, anonymize=anonymize)
+            o = Extra(st)
+            real = o.on_packet
+            name = "anon" if anonymize else "plain"
+
+            def on_packet(packet, warn_unknown=True, name=name, real=real):
+                got.append((name, tuple(packet[0]), bytes(packet[1])))
+                return real(packet, warn_unknown)
+            o.on_packet = on_packet
+            extra.append(o)
+            return o
+        anon, plain = load(0xA1, True), load(0xB2, False)
+        await sim.introduce()
+        ov = n0.overlay
+        c = ov.create_circuit(hops)
+        await sim.settle(0.05)
+        if c is None or c.state != "READY":
+            ctx.oracle_fail("create_circuit:not-ready", f"{tag}: no circuit", {"scenario": tag, "hops": hops})
+            return
+        path = path_of(sim, 0, c)
+        exit_node, exit_cid = path[-1]
+        xs = sim.nodes[exit_node].overlay.exit_sockets.get(exit_cid)
+        sim.key_ids()
+        ck.load_tables()
+        ctx.count("scenario:tunnel-endpoint")
+        specs = "[" + ",".join(f"{o.get_prefix().hex()}:{int(o.anonymize)}" for o in (ov, anon, plain)) + "]"
+        names = ["tunnel", "anon", "plain"]
+        prefixes = {"anon": anon.get_prefix(), "plain": plain.get_prefix(), "unknown": b"\x00\x02" + bytes([0xC3]) * 20,
+                    "anon-v1": b"\x00\x01" + anon.get_prefix()[2:]}
+        for pname, pfx in prefixes.items():
+            for size in (1, rng.choice([30, 200, 1200])):
+                src = ("9.9.9.9", 2000 + rng.randrange(60000))
+                payload = pfx + bytes([0xEE]) + bytes(rng.getrandbits(8) for _ in range(size - 1))
+                replay = {"scenario": tag, "op": "tunnel-endpoint-return", "prefix_of": pname, "size": len(payload), "hops": hops,
+                          "payload": payload.hex(), "origin": list(src)}
+                first = len(sim.passages)
+                sim.op_first_pid = first
+                n_got, n_raw = len(got), len(sim.raw_log)
+                xs.tunnel_data(src, payload)
+                await sim.settle()
+                ck.check_passages(first, f"return of a {pname} packet", replay)
+                new = got[n_got:]
+                want = [("anon", src, payload)] if pname == "anon" else []
+                if new != want or sim.raw_log[n_raw:]:
+                    ctx.oracle_fail("on_data:anonymized-overlay-delivery",
+                                    f"{tag}: IPv8 packet with the prefix of {pname} ({len(payload)} bytes) returned through the exit from {src}: "
+                                    f"overlays got {[(g[0], g[1], len(g[2])) for g in new]}, on_raw_data {len(sim.raw_log[n_raw:])}x; expected "
+                                    f"{'the anonymized overlay once with that origin' if want else 'nobody'}", replay)
+                ctx.count(f"tunnel_endpoint:{pname}:{'+'.join(g[0] for g in new) or 'nobody'}")
+                if ck.drv is not None:
+                    m = ck.ask(f"tdeliver {payload.hex()} {specs}")
+                    real = "[" + ",".join(str(names.index(g[0])) for g in new) + "]"
+                    s1 = ck.ask(f"sink data {ov.get_prefix().hex()} 1 1 {payload.hex()}")
+                    if m != real or s1 != "otherCommunity":
+                        ctx.disagree(f"{tag}: return of a {pname} packet: model sink {s1}, delivery set {m} != implementation {real}",
+                                     {**replay, "model": m, "impl": real})
+                ctx.case(("tunnel-endpoint", hops, pname, size == 1), True)
+    finally:
+        if ck.drv is not None:
+            ck.drv.close()
+        for o in extra:
+            try:
+                await o.unload()
+            except Exception:
+                pass
+        await sim.stop()
+
+
+# ------------------------------------------------------------------------------------------------------------------
 def run_async(coro_fn):
     import logging
     import vclock
@@ -1872,6 +2030,10 @@ def run(ctx: Ctx):
             sub = _random.Random(ctx.rng.getrandbits(64))
             _, errs = run_async(lambda: run_teardown(ctx, sub, hops, use_model, f"s{ctx.seed}r{rnd}"))
             note_errs(ctx, errs)
+        hops = 1 + rnd % 3
+        sub = _random.Random(ctx.rng.getrandbits(64))
+        _, errs = run_async(lambda: run_tunnel_endpoint(ctx, sub, hops, use_model, f"s{ctx.seed}r{rnd}"))
+        note_errs(ctx, errs)
 
 
 def search(ctx: Ctx, reason: str):
@@ -1886,6 +2048,8 @@ def search(ctx: Ctx, reason: str):
         for hops in (1, 2, 3):
             sub = _random.Random(ctx.rng.getrandbits(64))
             run_async(lambda: run_teardown(ctx, sub, hops, False, f"search{rnd}"))
+            sub = _random.Random(ctx.rng.getrandbits(64))
+            run_async(lambda: run_tunnel_endpoint(ctx, sub, hops, False, f"search{rnd}"))
 
 
 def replay(ctx: Ctx, rec: dict):
